@@ -9,6 +9,8 @@
 #include <cstdio>
 using namespace Qentem;
 
+#define VERIF_BIGINT_FACTOR 5U
+
 static void natList(const char *name, const unsigned long long *v, unsigned n) {
     printf("def %s : List Nat := [", name);
     for (unsigned i = 0; i < n; i++) printf("%s%llu", i ? ", " : "", v[i]);
@@ -43,7 +45,9 @@ static void dumpConst(const char *ns) {
 template <typename Float_T, typename Number_T>
 static void dumpInfo(const char *ns) {
     using I = DigitUtils::RealNumberInfo<Float_T, sizeof(Number_T)>;
-    using B = BigInt<SystemIntType, ((I::Bias + 1U) + (sizeof(Number_T) * 8U * 3U))>;
+    // The BigInt type is a function-local alias of realToString (the compiler cannot reflect it):
+    // the width expression is repeated here and checks/c10.py compares its factor with the source text.
+    using B = BigInt<SystemIntType, ((I::Bias + 1U) + (sizeof(Number_T) * 8U * VERIF_BIGINT_FACTOR))>;
     printf("namespace %s\n", ns);
     printf("def size : Nat := %u\n", unsigned(sizeof(Number_T)));
     printf("def bias : Nat := %u\n", unsigned(I::Bias));
@@ -58,6 +62,7 @@ static void dumpInfo(const char *ns) {
     printf("def bigIntMaxIndex : Nat := %u\n", unsigned(B::MaxIndex()));
     printf("def bigIntTypeWidth : Nat := %u\n", unsigned(B::TypeWidth()));
     printf("def bigIntSizeOfType : Nat := %u\n", unsigned(B::SizeOfType()));
+    printf("def bigIntWidthFactor : Nat := %u\n", unsigned(VERIF_BIGINT_FACTOR));
     printf("end %s\n", ns);
 }
 
